@@ -687,6 +687,10 @@ class Fxp():
             # a negative shift gives non-integer raw values: they must reach the rounding step as floats
             if vdtype is not None and np.issubdtype(vdtype, np.integer) and np.issubdtype(np.asarray(val).dtype, np.floating):
                 vdtype = float
+            # integer codes stay integers on their way to the store: the value type of the source tells how its values read, a cast of
+            # its codes to it would round them to 53 bits (float) or wrap the negative ones (an unsigned type)
+            elif np.asarray(val).dtype.kind in 'iu':
+                vdtype = int
 
         elif isinstance(val, (int, float, complex)):
             vdtype = type(val)
